@@ -31,6 +31,9 @@ func init() {
 			{ID: "R03j", Floor: 4, Doc: "cursor discipline of the positioned readers/writers of internal/io: the cursor field is advanced by exactly the byte count the wrapped ReadAt/Read/WriteAt returned, on every path that returns a count that may be non-zero (an io.Reader may return n > 0 together with an error)", Run: ruleR03j},
 			{ID: "R03o", Floor: 4, Doc: "the reader adapters of internal/io are the audited ones: ToByteReader, ToByteReadSeeker, ToReadSeeker and ToReaderAt return their argument or one of the adapter types of the pinned tree (whose byte accounting R03d/R03j check); an adapter type added beside them reads bytes that nothing counts or bounds", Run: ruleR03o},
 			{ID: "R03p", Floor: 1, Doc: "index generation runs under the options the caller gave: no function overrides StoreIdentityCIDs (or any option) for itself, so which sections get a record is decided by the caller alone (= R04j)", Run: ruleR04j},
+			{ID: "R03q", Floor: 1, Doc: "the index rebuilt on resume has a record for every section the rescan passes (= R12c)", Run: ruleR12c},
+			{ID: "R03r", Floor: 1, Doc: "the teeing loader of the selective writer writes a block once, so the one-offset-per-CID record map describes every section written (= R15a)", Run: ruleR15a},
+			{ID: "R03s", Floor: 2, Doc: "a section that was written is indexed before the put reports success (= R06i)", Run: ruleR12g},
 			{ID: "R03g", Floor: 1, Doc: "InsertionIndex.GetAll offers every record with the key's digest", Run: ruleR03g},
 			{ID: "R03h", Floor: 1, Doc: "records loaded into the index once, after the scan", Run: ruleR03h},
 			{ID: "R03d", Floor: 2, Doc: "discardingReadSeekerPlusByte: every byte source (ReadByte, Seek's discard) reads through the counting Read, which adds exactly the returned count", Run: ruleR03d},
@@ -814,7 +817,7 @@ func ruleR03g(c *Ctx, r *Report) {
 			continue
 		}
 		// the consumer callback's verdict
-		if cl, _ := callOf(v); cl == nil || cl.Common().StaticCallee() != nil || cl.Common().IsInvoke() {
+		if cl, _ := callOf(v); cl == nil || staticTarget(cl.Common()) != nil || cl.Common().IsInvoke() {
 			bad = "the iterator returns something other than a constant or the consumer's verdict"
 		}
 	}
